@@ -21,6 +21,9 @@
 //	       tseq | tpipe: the script runs INSIDE a CONNECT tunnel through the MITM-enabled proxy after a TLS handshake
 //	       (origins speak TLS); hseq | hpipe: inside such a tunnel in plain HTTP (the proxy's non-TLS branch)
 //	       lseq | lpipe: through a plain proxy whose modifier chain starts with the body-snapshotting HAR logger
+//	       lead<g|p|h|s>: sequential, but the LAST request shares its segment with a follower that never completes (garbage /
+//	       half a request / half a request then the client's half-close / a request to an origin that stays silent for 4 s);
+//	       the response to the last exchange must arrive within 2 s all the same
 //	modes: seq | pipe through the plain proxy; mseq | mpipe through the MITM-enabled one; sseq | spipe through a plain
 //	proxy with SetTimeout(1.5 s)
 //
@@ -623,6 +626,9 @@ func runUF(in []string) (out []string) {
 		carrier, ch, mode = mode[:1], mitmLongChild, mode[1:]
 	} else if strings.HasPrefix(mode, "m") { // mseq / mpipe: through the MITM-enabled proxy
 		ch, mode = mitmLongChild, mode[1:]
+	} else if strings.HasPrefix(mode, "lead") {
+		// lead<g|p|h|s>: sequential; the LAST request is written together with a
+		// follower that never completes (see below)
 	} else if mode == "lseq" || mode == "lpipe" { // through the proxy with the HAR logger in its modifier chain
 		ch, mode = harChild, mode[1:]
 	} else if mode == "sseq" || mode == "spipe" { // through the proxy with the short timeout
@@ -798,8 +804,48 @@ func runUF(in []string) (out []string) {
 	} else {
 		for i, e := range exs {
 			conn.SetWriteDeadline(time.Now().Add(30 * time.Second))
-			conn.Write(e.request(originOf[i].Addr, carrier != ""))
-			conn.SetReadDeadline(time.Now().Add(idleNow()))
+			req := e.request(originOf[i].Addr, carrier != "")
+			bound := idleNow()
+			if strings.HasPrefix(mode, "lead") && i == len(exs)-1 {
+				// The response to this exchange must not wait for whatever follows it
+				// in the same segment: garbage, half a request (then nothing, or the
+				// client's half-close), or a request to an origin that stays silent.
+				var follower []byte
+				switch mode[4:] {
+				case "g":
+					follower = []byte("\x00\x01 not http \xff\r\n\r\n")
+				case "p", "h":
+					follower = []byte("GET http://" + originOf[i].Addr + "/r9999 HT")
+				default:
+					if sl, err := net.Listen("tcp", "127.0.0.1:0"); err == nil {
+						defer sl.Close()
+						go func() {
+							if c, err := sl.Accept(); err == nil {
+								time.Sleep(4 * time.Second)
+								c.Close()
+							}
+						}()
+						follower = []byte(fmt.Sprintf("GET http://%s/silent HTTP/1.1\r\nHost: %s\r\n\r\n", sl.Addr(), sl.Addr()))
+					}
+				}
+				conn.Write(append(append([]byte{}, req...), follower...))
+				if mode[4:] == "h" {
+					if tc, ok := conn.(*net.TCPConn); ok {
+						tc.CloseWrite()
+					}
+				}
+				if bound > 2*time.Second {
+					bound = 2 * time.Second
+				}
+				conn.SetReadDeadline(time.Now().Add(bound))
+				record(p1x.ReadResponse(br, methodName(e.Meth), true))
+				if end == "" {
+					end = "lead"
+				}
+				break
+			}
+			conn.Write(req)
+			conn.SetReadDeadline(time.Now().Add(bound))
 			m := p1x.ReadResponse(br, methodName(e.Meth), true)
 			if !record(m) {
 				break
